@@ -198,6 +198,16 @@ Lemma ned_enu_rows x y z x0 y0 z0 :
   C17_enu2ned_rows_R y x (- z) y0 x0 (- z0) = Val [x; y; z; x0; y0; z0].
 Proof. unfold C17_ned2enu_rows_R, C17_enu2ned_rows_R. split; val_eq; ring. Qed.
 
+Lemma ned_enu_rows3 x1 y1 z1 x2 y2 z2 x3 y3 z3 :
+  C17_ned2enu_rows3_R x1 y1 z1 x2 y2 z2 x3 y3 z3 = Val [y1; x1; - z1; y2; x2; - z2; y3; x3; - z3] /\
+  C17_enu2ned_rows3_R y1 x1 (- z1) y2 x2 (- z2) y3 x3 (- z3) = Val [x1; y1; z1; x2; y2; z2; x3; y3; z3].
+Proof. unfold C17_ned2enu_rows3_R, C17_enu2ned_rows3_R. split; val_eq; ring. Qed.
+
+Lemma ned_enu_rows4 x1 y1 z1 x2 y2 z2 x3 y3 z3 x4 y4 z4 :
+  C17_ned2enu_rows4_R x1 y1 z1 x2 y2 z2 x3 y3 z3 x4 y4 z4 = Val [y1; x1; - z1; y2; x2; - z2; y3; x3; - z3; y4; x4; - z4] /\
+  C17_enu2ned_rows4_R y1 x1 (- z1) y2 x2 (- z2) y3 x3 (- z3) y4 x4 (- z4) = Val [x1; y1; z1; x2; y2; z2; x3; y3; z3; x4; y4; z4].
+Proof. unfold C17_ned2enu_rows4_R, C17_enu2ned_rows4_R. split; val_eq; ring. Qed.
+
 (* ---------------------------------------------------------------- ENU <-> DCA *)
 Lemma enu_dca_inverse ea no up ang :
   (exists d c k, C17_enu2dca_R ea no up ang = Val [d; c; k] /\ C17_dca2enu_R d c k ang = Val [ea; no; up]) /\
